@@ -19,6 +19,7 @@ from . import tlc
 
 STRS = ['abc', 'xyz']           # custom decision values: string number k <-> STRS[k-1]
 NO_NEXT = ['x', 0, []]
+MAX_OBS_PER_TLC = 120
 PY_WORKERS = int(os.environ.get('VERIF_PY_WORKERS', '0') or 0) or max(2, min(12, (os.cpu_count() or 4) - 2))
 
 
@@ -317,7 +318,10 @@ def laws_parallel(module: str, cfg: str, obs: List[dict], nchunks: int, name: st
   Returns the failure records (index `i` rewritten to the global 0-based position in `obs`) and the results.
   """
   weight = weight or (lambda o: 1)
-  nchunks = max(1, min(nchunks, len(obs)))
+  concurrency = max(1, nchunks)
+  # TLC's FlattenSeq recursion (and the per-record nesting under it) overflows the Java stack beyond a few hundred
+  # records per run: keep the chunks small and run them through a bounded pool instead
+  nchunks = max(1, min(len(obs), max(concurrency, -(-len(obs) // MAX_OBS_PER_TLC))))
   order = sorted(range(len(obs)), key=lambda i: -weight(obs[i]))
   chunks: List[List[int]] = [[] for _ in range(nchunks)]
   loads = [0.0] * nchunks
@@ -342,7 +346,7 @@ def laws_parallel(module: str, cfg: str, obs: List[dict], nchunks: int, name: st
 
   fails: List[dict] = []
   results = []
-  with concurrent.futures.ThreadPoolExecutor(max_workers=nchunks) as ex:
+  with concurrent.futures.ThreadPoolExecutor(max_workers=concurrency) as ex:
     for fs, r in ex.map(one, range(nchunks)):
       fails.extend(fs)
       results.append(r)
